@@ -12,15 +12,18 @@
     [no_opts]   all options off.
     [alt_full]  the property as stated: a positional copy whose atoms - leaves,
         dict keys, set members - are altered in any aspect an enabled option
-        ignores ([altA]).  REFUTED for the faithful model (8 witnesses).
+        ignores ([altA]).  REFUTED for the faithful model (7 witnesses).
     [copy] / [alt]  the same with the three relations the code implements: what
         a leaf comparison ignores ([altL]: math_epsilon overrides
         significant_digits), what key cleaning identifies ([altK]), what the
         hash text of a set member identifies ([altS]); [alt] matches dict
         entries and set members up to order.
     [guard]     every compared dict has good kept keys: pairwise different for
-        Python and after cleaning, cleanable (K8).
-    [safe]      no numeric dict key when a cleaning option is set without precision. *)
+        Python and after cleaning.
+    History: the model followed two defects that /repo has since fixed - the
+    TypeError of the path printer on bytes keys (0fac13b) and K8, the ValueError
+    of key cleaning on numeric keys without a precision (d664dbb); with them the
+    [Err] results, the [safe] guard and two _refuted theorems went away. *)
 From Coq Require Import List ZArith NArith Bool Arith.
 Import ListNotations.
 From DD Require Import Base.PyStr Base.Value Diff.Tree Diff.DiffModel.
@@ -82,10 +85,11 @@ Proof. exact altL_altA. Qed.
 Print Assumptions C11_leaf_relation_restricts_full.
 
 (* the full-strength statement is false: *)
-Theorem C11_alt_numeric_key_refuted :      (* K8: ValueError *)
-  exists a, alt_full Fcase cdef a a /\ run cdef no_opts a a = Ok ([], []) /\ run cdef Fcase a a = Err EValue.
-Proof. exact alt_numeric_key_refuted. Qed.
-Print Assumptions C11_alt_numeric_key_refuted.
+Example C11_numeric_key_without_precision :   (* K8, fixed by d664dbb: the key is left alone *)
+  let a := VDict [(AInt 1, vi 5)] in
+  run cdef Fcase a a = Ok ([], []) /\ run cdef Fstrty a a = Ok ([], []) /\
+  clean_key Fcase (AInt 1) = Ok (AInt 1).
+Proof. exact numeric_key_without_precision. Qed.
 
 Theorem C11_alt_sig_key_refuted :          (* significant_digits not applied to keys *)
   exists a b, alt_full (Fsig 0) cdef a b /\ exists r, run cdef (Fsig 0) a b = Ok r /\ fst r <> [].
@@ -178,24 +182,17 @@ Proof. exact monotone_tag_set_refuted. Qed.
 Print Assumptions C11_monotone_tag_set_refuted.
 
 (** ** Clause 3: no option makes DeepDiff raise on inputs it accepts without *)
-Theorem C11_no_new_raise_partial :
+Theorem C11_no_new_raise :
   forall F c udiff ops t1 t2 r,
-  run_optF udiff ops c no_opts t1 t2 = Ok r ->
-  safe F t1 = true -> safe F t2 = true -> exists r', run_optF udiff ops c F t1 t2 = Ok r'.
+  run_optF udiff ops c no_opts t1 t2 = Ok r -> exists r', run_optF udiff ops c F t1 t2 = Ok r'.
 Proof. exact no_new_raise_run. Qed.
-Print Assumptions C11_no_new_raise_partial.
+Print Assumptions C11_no_new_raise.
 
-(* the only source of exceptions is K8 *)
-Theorem C11_safe_never_raises :
-  forall F c udiff ops t1 t2 p1 p2, safe F t1 = true -> safe F t2 = true ->
-  exists r, diffF udiff ops c F t1 t2 p1 p2 = Ok r.
-Proof. exact safe_no_raise. Qed.
-Print Assumptions C11_safe_never_raises.
-
-Theorem C11_no_new_raise_numeric_key_refuted :
-  exists a, run cdef no_opts a a = Ok ([], []) /\ run cdef Fcase a a = Err EValue /\ run cdef Fstrty a a = Err EValue.
-Proof. exact no_new_raise_numeric_key_refuted. Qed.
-Print Assumptions C11_no_new_raise_numeric_key_refuted.
+(* stronger: the model never raises, for all values, options and oracles *)
+Theorem C11_never_raises :
+  forall F c udiff ops t1 t2 p1 p2, exists r, diffF udiff ops c F t1 t2 p1 p2 = Ok r.
+Proof. exact never_raises. Qed.
+Print Assumptions C11_never_raises.
 
 (** ** truncate_datetime / default_timezone: atom level only (datetimes are not atoms of the structural model) *)
 Theorem C11_dt_same_instant_other_zone : forall dtz us1 o1 us2 o2,
